@@ -1,4 +1,6 @@
 import AtreeModel.Codec.Decode
+import AtreeModel.Codec.Limits
+import AtreeModel.Codec.Hyp
 import AtreeModel.Dump
 import AtreeModel.Replay.Common
 /-
@@ -6,9 +8,21 @@ import AtreeModel.Replay.Common
 
     ENC <hex> size=<n> | <dump> [| <decoded dump>]
                                 parse the dump back into a model slab; its dump must reproduce <dump> (all
-                                stored sizes equal the computed ones), the model's encoding must be <hex>,
-                                its size <n>; the model's decoding of <hex> must dump as <decoded dump>
-                                (= <dump> unless the slab holds compact maps)
+                                stored sizes equal the computed ones), the model's encoder (`encodeSlabE`,
+                                with the error exits of the Go encoder) must succeed with <hex>, its size
+                                <n>; the EXACT length law of C06 must hold (written + omitted sibling link
+                                + hoisted compact-map bytes = reported + extra-data sections); the model's
+                                decoding of <hex> must dump as <decoded dump> (= <dump> unless the slab
+                                holds compact maps) and the exact validator depth `Slab.vdepth` must be
+                                within the DecMode limit; every hypothesis of the C06 / C07 theorems
+                                (`Slab.hypReport`) is evaluated: counters `hypothesis-not-met:<name>`
+    ENC <hex> size=<n> | <dump> | !nest
+                                the implementation's decoder rejected the register for its nesting depth:
+                                the model's decoder must reject it too and `Slab.vdepth` must exceed the limit
+    ENCERR <kind> | <dump>      the implementation's encoder returned an error (xdindex | level) on this
+                                slab: `encodeSlabE` must fail the same way
+    NEST kind=<k> first=<d>     the first depth of the nesting walk whose register did not reload; the
+                                model computes the same number from `Slab.vdepth`
     UMI <hex>                   the model of `cbor.Unmarshal` into a `uint64` gives the next OBS line
     DEC <hex> id=<a>.<i>        the model decoder's outcome is the expected next OBS line
     HDR <hex>                   the three header queries give the expected next OBS line
@@ -470,8 +484,9 @@ def omittedNext : Slab → Nat
   | .mdata m => if m.extra.isNone && m.next == SlabID.undef then 16 else 0
   | _ => 0
 
-/-- one `ENC` line: six comparisons -/
-def stepENC (s : CodecState) (dump hex : String) (decDump : String) (size : Nat) (lineNo : Nat) : CodecState :=
+/-- one `ENC` line; `nest` = the implementation's decoder rejected the register for its nesting depth -/
+def stepENC (s : CodecState) (dump hex : String) (decDump : String) (size : Nat) (lineNo : Nat)
+    (nest : Bool := false) : CodecState :=
   match parseDump dump, parseHex hex with
   | some slab, some bytes =>
     let s := { s with rep := (s.rep.tag "ENC") }
@@ -479,32 +494,102 @@ def stepENC (s : CodecState) (dump hex : String) (decDump : String) (size : Nat)
     let rd := dumpSlab slab
     let s := s.check (rd == dump) (fun _ =>
       s!"line {lineNo}: the parsed slab dumps as {short rd}, implementation's dump is {short dump}")
-    let enc := encodeSlab slab
-    let s := s.check (enc == bytes) (fun _ =>
-      s!"line {lineNo}: ENC bytes differ for {short dump}: model {short (renderHex enc)}, implementation {short hex}")
+    -- the model's encoder with the error exits of the Go encoder: it must succeed, with the same bytes
+    let s := match encodeSlabE slab with
+      | .ok enc => s.check (enc == bytes) (fun _ =>
+          s!"line {lineNo}: ENC bytes differ for {short dump}: model {short (renderHex enc)}, implementation {short hex}")
+      | .error err => s.check false (fun _ =>
+          s!"line {lineNo}: the model's encoder refuses ({repr err}, {slab.xdCount} extra-data entries) a slab the implementation encoded: {short dump}")
     let s := s.check (slab.byteSize == size) (fun _ =>
       s!"line {lineNo}: ENC size differs for {short dump}: model {slab.byteSize}, implementation {size}")
-    -- the length law of C06 on the implementation's bytes, evaluated by the model's bookkeeping
+    -- the EXACT length law of C06 on the implementation's bytes, evaluated by the model's bookkeeping
     let omitted := omittedNext slab
     let compact := usesCompact slab
-    let s := s.check (if compact then bytes.length + omitted ≤ slab.byteSize + slab.extraDataLen
-                      else bytes.length + omitted == slab.byteSize + slab.extraDataLen) (fun _ =>
-      s!"line {lineNo}: ENC length law fails for {short dump}: {bytes.length} + {omitted} vs {slab.byteSize} + {slab.extraDataLen} (compact {compact})")
+    let hoisted := slab.hoisted
+    let s := s.check (bytes.length + omitted + hoisted == slab.byteSize + slab.extraDataLen) (fun _ =>
+      s!"line {lineNo}: ENC length law fails for {short dump}: {bytes.length} + {omitted} + hoisted {hoisted} vs {slab.byteSize} + {slab.extraDataLen} (compact {compact})")
+    let s := s.check (compact || hoisted == 0) (fun _ =>
+      s!"line {lineNo}: hoisted bytes {hoisted} without a compact map: {short dump}")
     let s := if compact then { s with rep := s.rep.tag "ENC:compact" } else s
+    -- the hypotheses of the C06 / C07 theorems (`SlabOKG`; Bool versions in Codec/Hyp.lean, proved
+    -- equivalent in AtreeProofs/Codec/HypB.lean), evaluated on the slab the implementation encoded:
+    -- a failed clause is counted (`hypothesis-not-met:<name>`); it is an ERROR for the clauses claimed
+    -- to be invariants of encodable slabs — all but the older, non-tight nesting clause `nest-vneed`
+    -- (a measured gap) and the exact one on a register the implementation itself rejects (`!nest`)
+    let s := slab.hypReport.foldl (fun (s : CodecState) (p : String × Bool) =>
+      if p.2 then s
+      else if p.1 == "noCompact" || p.1 == "noInl" then s    -- shapes, not hypotheses of the general theorems
+      else
+        let s := { s with rep := s.rep.tag ("hypothesis-not-met:" ++ p.1) }
+        if p.1 == "nest-vneed" || (p.1 == "nest-exact" && nest) then s
+        else s.check false (fun _ =>
+          s!"line {lineNo}: hypothesis `{p.1}` of the C06/C07 theorems does not hold for a slab the implementation encoded: {short dump}")) s
+    let s := if slab.hypOK then { s with rep := s.rep.tag "hypotheses-met" } else s
+    let vd := slab.vdepth
     match (decodeSlab slab.id bytes).run with
     | .ok s' _ =>
+      if nest then
+        s.check false (fun _ => s!"line {lineNo}: the implementation's decoder rejects the register for its nesting depth, the model decoder accepts it (vdepth {vd}): {short dump}")
+      else
       let d' := dumpSlab s'
       let s := s.check (d' == decDump) (fun _ =>
         s!"line {lineNo}: model decoding of the implementation's bytes dumps as {short d'}, implementation's decoded slab is {short decDump}")
       -- the decoded form differs from the in-memory form only under the compact-map exception
       let s := s.check (decDump == dump || compact) (fun _ =>
         s!"line {lineNo}: decoded dump differs from the slab's dump although no compact map is encoded: {short dump}")
+      -- the exact validator depth predicts that the register decodes
+      let s := s.check (vd ≤ maxNestedLevels) (fun _ =>
+        s!"line {lineNo}: the register decodes although the exact validator depth is {vd} > {maxNestedLevels}: {short dump}")
       s.check (s'.byteSize == size) (fun _ =>
         s!"line {lineNo}: model-decoded size {s'.byteSize}, implementation {size}")
-    | .error _ _ => (s.check false (fun _ => s!"line {lineNo}: model decoder rejects the implementation's bytes of {short dump}"))
+    | .error _ _ =>
+      if nest then
+        let s := { s with rep := s.rep.tag "ENC:!nest" }
+        s.check (vd > maxNestedLevels) (fun _ =>
+          s!"line {lineNo}: the register is rejected for its nesting depth but the exact validator depth is {vd} ≤ {maxNestedLevels}: {short dump}")
+      else (s.check false (fun _ => s!"line {lineNo}: model decoder rejects the implementation's bytes of {short dump} (vdepth {vd})"))
     | .panic => (s.check false (fun _ => s!"line {lineNo}: model decoder PANICS on the implementation's bytes of {short dump}"))
   | none, _ => s.note s!"line {lineNo}: cannot parse dump {short dump}"
   | _, none => s.note s!"line {lineNo}: cannot parse hex"
+
+/-- one `ENCERR` line: the implementation's encoder refused the slab -/
+def stepENCERR (s : CodecState) (kind dump : String) (lineNo : Nat) : CodecState :=
+  match parseDump dump with
+  | some slab =>
+    let s := { s with rep := (s.rep.tag ("ENCERR:" ++ kind)) }
+    let rd := dumpSlab slab
+    let s := s.check (rd == dump) (fun _ =>
+      s!"line {lineNo}: the parsed slab dumps as {short rd}, implementation's dump is {short dump}")
+    match encodeSlabE slab with
+    | .ok _ => s.check false (fun _ =>
+        s!"line {lineNo}: the implementation's encoder refuses ({kind}) a slab the model's encoder accepts ({slab.xdCount} extra-data entries): {short dump}")
+    | .error err =>
+      let k := match err with | .extraDataIndex => "xdindex" | .digestLevel => "level" | .storableInlined => "storable-inlined"
+      s.check (k == kind) (fun _ => s!"line {lineNo}: encoder error kinds differ: model {k}, implementation {kind}: {short dump}")
+  | none => s.note s!"line {lineNo}: cannot parse dump {short dump}"
+
+/-- the containers of the harness's nesting walk (harness/cmd/trace/codecdirected.go, `runNestingWalk`):
+    `k + 1` containers inside each other, the innermost holding a plain value -/
+def nestChain (kind : String) : Nat → Stor
+  | 0 =>
+    if kind == "map" then .map ⟨.plain 1, 1, 9⟩ 2 (.hkey 0 [5] [.single (.mk (.val 2 1) (.val 2 7))])
+    else .arr (.plain 1) 2 [.val 2 7]
+  | k + 1 =>
+    let c := if kind == "warr" then Stor.some (nestChain kind k) else nestChain kind k
+    if kind == "map" then .map ⟨.plain 1, 1, 9⟩ (k + 3) (.hkey 0 [5] [.single (.mk (.val 2 1) c)])
+    else .arr (.plain 1) (k + 3) [c]
+
+/-- the root slab of the walk at `depth ≥ 1` (the root plus `depth` inlined containers) -/
+def nestRoot (kind : String) (depth : Nat) : Slab :=
+  let c := if kind == "warr" then Stor.some (nestChain kind (depth - 1)) else nestChain kind (depth - 1)
+  if kind == "map" then
+    .mdata { id := ⟨1, 1⟩, next := SlabID.undef, extra := some ⟨.plain 1, 1, 9⟩,
+             els := .hkey 0 [5] [.single (.mk (.val 2 1) c)], anySize := false, group := false }
+  else .adata { id := ⟨1, 1⟩, next := SlabID.undef, ty := some (.plain 1), elems := [c] }
+
+/-- the first depth whose register the validator rejects, as `Slab.vdepth` predicts it -/
+def nestFirstFail (kind : String) : Option Nat :=
+  ((List.range 64).map (· + 1)).find? (fun d => (nestRoot kind d).vdepth > maxNestedLevels)
 
 /-- `cbor.Unmarshal(data, &uint64)` -/
 def obsUnmarshal (data : Bytes) : String :=
@@ -520,8 +605,21 @@ def stepLine (s : CodecState) (line : String) (lineNo : Nat) : CodecState :=
     let s := { s with rep := { s.rep with ops := s.rep.ops + 1 } }
     match line.splitOn " | " with
     | [_, dump] => s.stepENC dump hex dump size lineNo
+    | [_, dump, "!nest"] => s.stepENC dump hex dump size lineNo true
     | [_, dump, dec] => s.stepENC dump hex dec size lineNo
     | _ => s.note s!"line {lineNo}: cannot parse ENC line"
+  | "ENCERR" :: kind :: "|" :: _ =>
+    let s := { s with rep := { s.rep with ops := s.rep.ops + 1 } }
+    match line.splitOn " | " with
+    | [_, dump] => s.stepENCERR kind dump lineNo
+    | _ => s.note s!"line {lineNo}: cannot parse ENCERR line"
+  | "NEST" :: rest =>
+    let s := { s with rep := { (s.rep.tag "NEST") with ops := s.rep.ops + 1 } }
+    match fget (fields rest) "kind", fnat (fields rest) "first" with
+    | some kind, some first =>
+      s.check (nestFirstFail kind == some first) (fun _ =>
+        s!"line {lineNo}: nesting walk {kind}: the implementation's first failing depth is {first}, the model predicts {repr (nestFirstFail kind)}")
+    | _, _ => s.note s!"line {lineNo}: cannot parse NEST line"
   | "DEC" :: hex :: rest =>
     let s := { s with rep := { (s.rep.tag "DEC") with ops := s.rep.ops + 1 } }
     let s := if s.pending.isEmpty then s else s.note s!"line {lineNo}: model expected {s.pending} before this DEC"
